@@ -23,7 +23,18 @@ KEYWORDS = set("as break const continue crate else enum extern false fn for if i
 SNAKE_FAMILY = ("snake_case", "SCREAMING_SNAKE_CASE", "kebab-case", "SCREAMING-KEBAB-CASE")
 
 
+TOK = {"<e>": "é", "<E>": "É", "<a>": "ä", "<A>": "Ä"}          # spec/Chars.tla: tokens for non-ASCII letters
+
+
+def real(s):
+    """spec token string -> real text"""
+    for k, v in TOK.items():
+        s = s.replace(k, v)
+    return s
+
+
 def rust_ident(name):
+    name = real(name)
     return name if name.startswith("r#") else ("r#" + name if name in KEYWORDS else name)
 
 
@@ -92,6 +103,8 @@ def ident_class(name):
         return "raw"
     if n in KEYWORDS or n in ("class", "default"):
         return "keyword"
+    if "<" in n or not n.isascii():
+        return "non-ascii"
     if n.endswith("_") or n.startswith("_"):
         return "edge-underscore"
     if n != n.lower():
@@ -174,7 +187,7 @@ def run_cases(chk, cases, prefix_cfgs):
                         chk.mismatch(signature(lang, case, "key!=serde", "sibling-variant") + "/sibling=" + case["sibling"],
                                      f"{lang}: {case}: the member of the sibling variant Dec (rule {case['sibling_rule']}) has the keys {sk}, serde uses `{case['sibling_key']}`",
                                      {"case": case, "lang": lang, "prefix": prefix}, [case["sibling_key"]], sk)
-                if ms and len(ms) == 2 and case.get("layout", "two") == "two":
+                if ms and len(ms) == 2 and case.get("layout", "two") == "two" and "<" not in case["ident"]:
                     ident = case["ident"][2:] if case["ident"].startswith("r#") else case["ident"]
                     for m, (idt, ren) in zip(ms, ((ident, case["rename"]), ("plain_one", "none"))):
                         events.append({"lang": lang0, "ident": list(idt), "rename": ["<none>"] if ren in ("none", None, "") else [] if ren == "empty" else list(ren), "rule": case["rule"], "key": list(m["key"]),
@@ -196,7 +209,7 @@ def run(chk):
     res = common.run_tlc("MC_C01", cfg="MC_C01_thorough" if thorough else "MC_C01_quick", workers=4, timeout=900)
     chk.add_tlc("MC_C01", res)
     chk.exhaustive = True
-    cases = sorted([(dict(c["case"], sibling_rule=c["sibling_rule"], sibling_key=c["sibling_key"]), c["keys"]) for c in res.replays],
+    cases = sorted([(dict(c["case"], sibling_rule=c["sibling_rule"], sibling_key=c["sibling_key"]), [real(k) for k in c["keys"]]) for c in res.replays],
                    key=lambda ck: (ck[0].get("layout", "two") != "two", ck[0].get("sibling", "none") != "none"))
     if not cases:
         raise ToolError("no cases")
